@@ -62,7 +62,9 @@ def r1_end_stream_handover(ctx):
     if rc:
         setters = [(bi, t) for bi, t in rc.calls_to(SES) if core.op_const(t['a'][1]) and core.op_const(t['a'][1])[0] == 1]
         pb = [bi for bi, t in rc.calls_to(PRIO + 'push_back_frame')]
-        r.check(bool(setters) and bool(pb), 'reclaim|restores', rc.file, 'reclaim_frame_inner calls set_end_stream(true) and push_back_frame')
+        # the put-back itself, when push_back_frame was inlined by hand
+        pb += [bi for bi, t in rc.calls_to(DEQ + 'push_front') if has_field(rc.expr_of_op(t['a'][0]), STREAM, 'pending_send')]
+        r.check(bool(setters) and bool(pb), 'reclaim|restores', rc.file, 'reclaim_frame_inner calls set_end_stream(true) and puts the frame back (push_back_frame / push_front on pending_send)')
         # eos variable assigned from Prioritized.end_of_stream inside the map closure
         cl = [F.fns[c] for c in F.cg.get(rc.name, ()) if c.startswith(rc.name + '::{closure') and c in F.fns]
         src = any(any(mentions_field(g.expr_of_rvalue(rv), None, 'end_of_stream') for bi, si, pl, rv, ln in g.stmts()) for g in cl)
@@ -97,6 +99,11 @@ def r2_fifo(ctx):
             if name == PRIO + 'push_back_frame':
                 callers = sorted(F.rcg.get(name, ()))
                 r.check(callers == [PRIO + 'reclaim_frame_inner'], key, f.loc(bi), 'push_back_frame is reached only from reclaim_frame_inner (the single in-flight frame): %s' % callers)
+                continue
+            if name == PRIO + 'reclaim_frame_inner' and which == 'pending_send':
+                # push_back_frame inlined by hand: the frame put back is the single in-flight frame handed back by the codec
+                fr = strip(f.expr_of_op(t['a'][2])) if len(t['a']) > 2 else None
+                r.check(fr is not None and any(x[0] == 'arg' for x in walk(fr)), key, f.loc(bi), 'reclaim_frame_inner puts back the in-flight frame it was handed')
                 continue
             pops = [b for b, t2 in f.calls_to(DEQ + 'pop_front') if has_field(f.expr_of_op(t2['a'][0]), STREAM, which)]
             pushes_back = [b for b, t2 in f.calls_to(DEQ + 'push_back') if has_field(f.expr_of_op(t2['a'][0]), STREAM, which)]
